@@ -232,6 +232,13 @@ func checkC18(c *Ctx) {
 		mpBuild, func(j *Job, r *proto.Result) { mpJudge(c, j, r) }) {
 		return
 	}
+	if !c.Thorough() {
+		// a seeded sample of the two-event histories (create then delete, delete then create ...); thorough has them all
+		if !c.streamRun("trees_two_events_sampled", tlc.Run{Module: "ModPath", Workers: 1, Timeout: 20 * time.Minute, Simulate: "num=2500", Depth: 12, Seed: c.Seed,
+			Cfg: cfg(2, "Emit")}, p, 8, mpBuild, func(j *Job, r *proto.Result) { mpJudge(c, j, r) }) {
+			return
+		}
+	}
 	if c.Thorough() {
 		if !c.streamRun("trees_two_events", tlc.Run{Module: "ModPath", Workers: 8, Timeout: 60 * time.Minute, Cfg: cfg(2, "Emit")}, p, 8,
 			mpBuild, func(j *Job, r *proto.Result) { mpJudge(c, j, r) }) {
